@@ -36,28 +36,39 @@
  * four variables are the maps  id -> (live, fd, epoll event mask)  and  id -> (live, ringing).  An event mask of 0 means
  * "not in the kernel's epoll set" (xpoll.c: reg_epoll_mod does EPOLL_CTL_DEL for 0). */
 int xb_t_reg;   _Bool xb_t_reg_live;  int xb_t_reg_fd; int xb_t_reg_event;
+int xb_t_reg_owner;                  /* who made the tracked registration: 1 = xcm_tp_btcp.c itself, else another module (tconnect, resolver, timers) */
 int xb_t_bell;  _Bool xb_t_bell_live; _Bool xb_t_bell_ringing;
 long xb_reg_mods, xb_bell_mods;      /* number of xpoll_fd_reg_mod / xpoll_bell_reg_mod calls */
-#define XP_REG_ROW xb_t_reg_live, xb_t_reg_fd, xb_t_reg_event
+#define XP_REG_ROW xb_t_reg_live, xb_t_reg_fd, xb_t_reg_event, xb_t_reg_owner
 #define XP_REG_SAME (xb_t_reg_live == __CPROVER_old(xb_t_reg_live) && xb_t_reg_fd == __CPROVER_old(xb_t_reg_fd) && \
-                     xb_t_reg_event == __CPROVER_old(xb_t_reg_event))
+                     xb_t_reg_event == __CPROVER_old(xb_t_reg_event) && xb_t_reg_owner == __CPROVER_old(xb_t_reg_owner))
+/* another module adds, modifies and deletes ITS OWN registrations only (registration ids are private to whoever got them
+ * from xpoll_fd_reg_add) */
+#define XP_FOREIGN ((__CPROVER_old(xb_t_reg_live) && __CPROVER_old(xb_t_reg_owner) == 1) ==> XP_REG_SAME)
 #define XP_BELL_SAME (xb_t_bell_live == __CPROVER_old(xb_t_bell_live) && xb_t_bell_ringing == __CPROVER_old(xb_t_bell_ringing))
-#define XP_RANGE (XB_CNT_OK(xb_reg_mods) && XB_CNT_OK(xb_bell_mods))
+/* ghost call counters: below XB_CALLS_MAX on entry of a public operation; helper functions called in mid-operation accept
+ * the slack an operation can add (XB_IN); the assumed contracts of other modules accept twice the maximum (XB_EXT) */
+#define XB_CNT_LIM(c, lim) ((c) >= 0 && (c) < (lim))
+#define XB_IN(c) XB_CNT_LIM(c, XB_CALLS_MAX + 64)
+#define XB_EXT(c) XB_CNT_LIM(c, 2 * XB_CALLS_MAX)
+#define XP_RANGE_LIM(lim) (XB_CNT_LIM(xb_reg_mods, lim) && XB_CNT_LIM(xb_bell_mods, lim))
+#define XP_RANGE XP_RANGE_LIM(XB_CALLS_MAX)
+#define XP_RANGE_EXT XP_RANGE_LIM(2 * XB_CALLS_MAX)
 
 /* xpoll.c: get_fd_reg() asserts that the id is a live registration; the registration's mask becomes `event`; nothing else
  * changes; errno is left alone (reg_epoll_mod brackets the only epoll_ctl that is allowed to fail) */
 void xpoll_fd_reg_mod(struct xpoll *xpoll, int reg_id, int event)
-__CPROVER_requires(reg_id >= 0 && (reg_id == xb_t_reg ==> xb_t_reg_live) && XP_RANGE)
+__CPROVER_requires(reg_id >= 0 && (reg_id == xb_t_reg ==> xb_t_reg_live) && XP_RANGE_EXT)
 __CPROVER_assigns(xb_t_reg_event, xb_reg_mods)
 __CPROVER_ensures(xb_reg_mods == __CPROVER_old(xb_reg_mods) + 1)
 __CPROVER_ensures(reg_id == xb_t_reg ? xb_t_reg_event == event : xb_t_reg_event == __CPROVER_old(xb_t_reg_event))
 ;
 /* xpoll.c: get_bell_reg() asserts that the id is a live bell */
 void xpoll_bell_reg_mod(struct xpoll *xpoll, int reg_id, bool ringing)
-__CPROVER_requires(reg_id >= 0 && (reg_id == xb_t_bell ==> xb_t_bell_live) && XP_RANGE)
+__CPROVER_requires(reg_id >= 0 && (reg_id == xb_t_bell ==> xb_t_bell_live) && XP_RANGE_EXT)
 __CPROVER_assigns(xb_t_bell_ringing, xb_bell_mods)
 __CPROVER_ensures(xb_bell_mods == __CPROVER_old(xb_bell_mods) + 1)
-__CPROVER_ensures(reg_id == xb_t_bell ? xb_t_bell_ringing == ringing : xb_t_bell_ringing == __CPROVER_old(xb_t_bell_ringing))
+__CPROVER_ensures(reg_id == xb_t_bell ? !xb_t_bell_ringing == !ringing : xb_t_bell_ringing == __CPROVER_old(xb_t_bell_ringing))
 ;
 /* xpoll.c: asserts fd >= 0 and that fd has no registration yet; returns a free id, which becomes (live, fd, event) */
 int xpoll_fd_reg_add(struct xpoll *xpoll, int fd, int event)
@@ -65,7 +76,7 @@ __CPROVER_requires(fd >= 0 && !(xb_t_reg_live && xb_t_reg_fd == fd))
 __CPROVER_assigns(XP_REG_ROW)
 __CPROVER_ensures(__CPROVER_return_value >= 0)
 __CPROVER_ensures(__CPROVER_return_value == xb_t_reg \
-        ? (!__CPROVER_old(xb_t_reg_live) && xb_t_reg_live && xb_t_reg_fd == fd && xb_t_reg_event == event) : XP_REG_SAME)
+        ? (!__CPROVER_old(xb_t_reg_live) && xb_t_reg_live && xb_t_reg_fd == fd && xb_t_reg_event == event && xb_t_reg_owner == 1) : XP_REG_SAME)
 ;
 /* xpoll.c: removes registration reg_id if reg_id >= 0 (asserted live); errno preserved */
 void xpoll_fd_reg_del_if_valid(struct xpoll *xpoll, int reg_id)
@@ -112,7 +123,7 @@ __CPROVER_ensures(reg_id == xb_t_bell ? !xb_t_bell_live : XP_BELL_SAME)
 bool tcp_opts_equal(const struct tcp_opts *opts_a, const struct tcp_opts *opts_b)
 __CPROVER_requires(__CPROVER_r_ok(opts_a, sizeof(*opts_a)) && __CPROVER_r_ok(opts_b, sizeof(*opts_b)) && B_OPTS_VALID(opts_a) && B_OPTS_VALID(opts_b))
 __CPROVER_assigns()
-__CPROVER_ensures(__CPROVER_return_value == B_OPTS_EQ(opts_a, opts_b))
+__CPROVER_ensures(!__CPROVER_return_value == !B_OPTS_EQ(opts_a, opts_b))
 ;
 /* every option of *opts is written to fd; success only if the kernel accepted them all.  On failure errno is the
  * kernel's (setsockopt/getsockname of env/sockopt.h: > 0).
@@ -120,7 +131,7 @@ __CPROVER_ensures(__CPROVER_return_value == B_OPTS_EQ(opts_a, opts_b))
 int xb_eff_errno;     /* ghost: errno of the last failed tcp_opts_effectuate */
 long xb_eff_calls;
 int tcp_opts_effectuate(struct tcp_opts *opts, int fd)
-__CPROVER_requires(__CPROVER_r_ok(opts, sizeof(*opts)) && B_OPTS_VALID(opts) && B_SO_RANGE && XB_CNT_OK(xb_eff_calls))
+__CPROVER_requires(__CPROVER_r_ok(opts, sizeof(*opts)) && B_OPTS_VALID(opts) && B_SO_RANGE && XB_EXT(xb_eff_calls))
 __CPROVER_assigns(xv_errno, B_SO_ASSIGNS, xb_eff_errno, xb_eff_calls, xv_lower_dead)
 __CPROVER_ensures(__CPROVER_return_value == 0 || __CPROVER_return_value == -1)
 __CPROVER_ensures(XB_KILLS_IF(__CPROVER_return_value == -1))
@@ -139,11 +150,11 @@ long xb_tc_calls, xb_tc_destroys;
 #define XB_FD_OK(fd) ((fd) >= 0 && (fd) < XB_NFD && xb_fdt.e[fd].open && xb_fdt.e[fd].nonblock)
 int tconnect_get_connected_fd(struct tconnect *tconnect, int *fd, int64_t *scope, struct tcp_opts *tcp_opts)
 __CPROVER_requires(tconnect != NULL && __CPROVER_w_ok(fd, sizeof(*fd)) && __CPROVER_w_ok(scope, sizeof(*scope)) && __CPROVER_w_ok(tcp_opts, sizeof(*tcp_opts)))
-__CPROVER_requires(B_SO_RANGE && XB_CNT_OK(xb_tc_calls))
+__CPROVER_requires(B_SO_RANGE && XB_EXT(xb_tc_calls))
 __CPROVER_assigns(*fd, *scope, *tcp_opts, xv_errno, XP_REG_ROW, B_SO_ASSIGNS, xb_tc_rc, xb_tc_errno, xb_tc_calls, xv_lower_dead)
 __CPROVER_ensures((__CPROVER_return_value == 0 || __CPROVER_return_value == -1) && __CPROVER_return_value == xb_tc_rc)
 __CPROVER_ensures(XB_KILLS_IF(__CPROVER_return_value == -1 && xv_errno != EAGAIN))
-__CPROVER_ensures(xb_tc_calls == __CPROVER_old(xb_tc_calls) + 1 && B_SO_RANGE)
+__CPROVER_ensures(xb_tc_calls == __CPROVER_old(xb_tc_calls) + 1 && B_SO_RANGE && XP_FOREIGN)
 __CPROVER_ensures(__CPROVER_return_value == -1 ==> (xv_errno > 0 && xv_errno == xb_tc_errno && *fd == __CPROVER_old(*fd) && *scope == __CPROVER_old(*scope)))
 __CPROVER_ensures(__CPROVER_return_value == 0 ==> (xv_errno == __CPROVER_old(xv_errno) && XB_FD_OK(*fd) && !(xb_t_reg_live && xb_t_reg_fd == *fd) && \
                                                     *scope >= -1 && *scope <= (int64_t)UINT32_MAX))
@@ -152,7 +163,7 @@ __CPROVER_ensures(__CPROVER_return_value == 0 ==> (B_OPTS_VALID(tcp_opts) && B_O
 /* tconnect.c:590: releases the remaining descriptors, registrations and timers of the attempt; errno preserved (close and
  * epoll_ctl(DEL) are bracketed in util.c / xpoll.c).  Does not touch a descriptor that was handed over. */
 void tconnect_destroy(struct tconnect *tconnect, bool owner)
-__CPROVER_requires(XB_CNT_OK(xb_tc_destroys))
+__CPROVER_requires(XB_EXT(xb_tc_destroys))
 __CPROVER_assigns(xb_tc_destroys)
 __CPROVER_ensures(xb_tc_destroys == __CPROVER_old(xb_tc_destroys) + (tconnect != NULL ? 1 : 0))
 ;
@@ -163,11 +174,11 @@ int tconnect_connect(struct tconnect *tconnect, const struct xcm_addr_ip *local_
                      size_t num_remote_ips, uint16_t remote_port)
 __CPROVER_requires(tconnect != NULL && (local_ip == NULL || __CPROVER_r_ok(local_ip, sizeof(*local_ip))) && __CPROVER_r_ok(tcp_opts, sizeof(*tcp_opts)) && B_OPTS_VALID(tcp_opts))
 __CPROVER_requires(num_remote_ips >= 1 && num_remote_ips <= XCM_DNS_MAX_RESULT_SIZE && __CPROVER_r_ok(remote_ips, num_remote_ips * sizeof(*remote_ips)))
-__CPROVER_requires(tcp_connect_timeout >= 0 && B_SO_RANGE && XB_CNT_OK(xb_tc_connects))
+__CPROVER_requires(tcp_connect_timeout >= 0 && B_SO_RANGE && XB_EXT(xb_tc_connects))
 __CPROVER_assigns(xv_errno, XP_REG_ROW, B_SO_ASSIGNS, xb_tc_connects, xv_lower_dead)
 __CPROVER_ensures(__CPROVER_return_value == 0 || (__CPROVER_return_value == -1 && xv_errno > 0 && xv_errno != EAGAIN))
 __CPROVER_ensures(XB_KILLS_IF(__CPROVER_return_value == -1))
-__CPROVER_ensures(xb_tc_connects == __CPROVER_old(xb_tc_connects) + 1 && B_SO_RANGE)
+__CPROVER_ensures(xb_tc_connects == __CPROVER_old(xb_tc_connects) + 1 && B_SO_RANGE && XP_FOREIGN)
 ;
 
 /* ---- xcm_dns_cares.c.  The query is opaque: a non-NULL handle; xb_q_completed is its "no longer in progress" flag */
@@ -177,13 +188,13 @@ long xb_q_destroys, xb_q_processes;
 bool xcm_dns_query_completed(struct xcm_dns_query *query)
 __CPROVER_requires(query != NULL)
 __CPROVER_assigns()
-__CPROVER_ensures(__CPROVER_return_value == xb_q_completed)
+__CPROVER_ensures(!__CPROVER_return_value == !xb_q_completed)
 ;
 /* drives c-ares: its sockets do I/O (errno is NOT preserved), its descriptors/timer are (re)registered with xpoll */
 void xcm_dns_query_process(struct xcm_dns_query *query)
-__CPROVER_requires(query != NULL && XB_CNT_OK(xb_q_processes))
+__CPROVER_requires(query != NULL && XB_EXT(xb_q_processes))
 __CPROVER_assigns(xv_errno, xb_q_completed, XP_REG_ROW, xb_q_processes)
-__CPROVER_ensures(xb_q_processes == __CPROVER_old(xb_q_processes) + 1)
+__CPROVER_ensures(xb_q_processes == __CPROVER_old(xb_q_processes) + 1 && XP_FOREIGN)
 __CPROVER_ensures(__CPROVER_old(xb_q_completed) ==> xb_q_completed)
 ;
 /* in progress: -1/EAGAIN; failed: -1/ENOENT; successful: 1..capacity addresses */
@@ -193,13 +204,13 @@ __CPROVER_assigns(xv_errno, XP_REG_ROW, xb_q_rc, xb_q_errno, xv_lower_dead, __CP
 __CPROVER_ensures(XB_KILLS_IF(__CPROVER_return_value == -1 && xv_errno != EAGAIN))
 __CPROVER_ensures(__CPROVER_return_value == xb_q_rc && ((__CPROVER_return_value >= 1 && __CPROVER_return_value <= capacity) || __CPROVER_return_value == -1))
 __CPROVER_ensures(__CPROVER_return_value == -1 ==> (xv_errno == xb_q_errno && (xv_errno == EAGAIN ? !xb_q_completed : (xv_errno == ENOENT && xb_q_completed))))
-__CPROVER_ensures(__CPROVER_return_value >= 1 ==> xb_q_completed)
+__CPROVER_ensures((__CPROVER_return_value >= 1 ==> xb_q_completed) && XP_FOREIGN)
 ;
 /* errno preserved (see tconnect_destroy) */
 void xcm_dns_query_destroy(struct xcm_dns_query *query, bool owner)
-__CPROVER_requires(XB_CNT_OK(xb_q_destroys))
+__CPROVER_requires(XB_EXT(xb_q_destroys))
 __CPROVER_assigns(xb_q_destroys, XP_REG_ROW)
-__CPROVER_ensures(xb_q_destroys == __CPROVER_old(xb_q_destroys) + (query != NULL ? 1 : 0))
+__CPROVER_ensures(xb_q_destroys == __CPROVER_old(xb_q_destroys) + (query != NULL ? 1 : 0) && XP_FOREIGN)
 ;
 /* F20: a named host is resolved SYNCHRONOUSLY (poll(-1)): the calling thread sleeps => xv_blocked.  -1 => errno > 0 */
 int xcm_dns_resolve_sync(struct xcm_addr_host *host, void *log_ref)
@@ -222,7 +233,7 @@ __CPROVER_ensures(__CPROVER_return_value == 0 ==> (host->type == xcm_addr_type_i
 /* every btcp harness calls this after xv_ghost_havoc(); xb_env_havoc(); xv_sockopt_havoc(); */
 static inline void xb_ghost_havoc(void)
 {
-    xb_t_reg = nondet_int(); xb_t_reg_live = nondet_bool(); xb_t_reg_fd = nondet_int(); xb_t_reg_event = nondet_int();
+    xb_t_reg = nondet_int(); xb_t_reg_live = nondet_bool(); xb_t_reg_fd = nondet_int(); xb_t_reg_event = nondet_int(); xb_t_reg_owner = nondet_int();
     xb_t_bell = nondet_int(); xb_t_bell_live = nondet_bool(); xb_t_bell_ringing = nondet_bool();
     xb_reg_mods = nondet_long(); xb_bell_mods = nondet_long();
     xb_eff_errno = nondet_int(); xb_eff_calls = nondet_long();
@@ -239,21 +250,22 @@ static inline void xb_ghost_havoc(void)
 #define BT_IS(s, st) (BST(s) == conn_state_##st)
 #define BT_DEAD(s) (BT_IS(s, closed) || BT_IS(s, bad))
 /* xv_lower_dead IS "state in {closed, bad}" (see env/btcp_env.h) */
-#define BT_DEAD_IS_STATE(s) (xv_lower_dead == BT_DEAD(s))
+/* (a havocked _Bool may hold any non-zero byte: compare truth values, not representations) */
+#define BT_DEAD_IS_STATE(s) (!xv_lower_dead == !BT_DEAD(s))
 /* the socket's own registration: a live registration of its descriptor */
-#define BT_REG_OK(s) (BT(s)->fd_reg_id >= 0 && (xb_t_reg == BT(s)->fd_reg_id ==> (xb_t_reg_live && xb_t_reg_fd == BT(s)->fd)))
+#define BT_REG_OK(s) (BT(s)->fd_reg_id >= 0 && (xb_t_reg == BT(s)->fd_reg_id ==> (xb_t_reg_live && xb_t_reg_fd == BT(s)->fd && xb_t_reg_owner == 1)))
 #define BT_BELL_OK(s) (BT(s)->conn.bell_reg_id >= 0 && (xb_t_bell == BT(s)->conn.bell_reg_id ==> xb_t_bell_live))
 /* the facts assert_conn_socket() states for the states a socket can be in after xcm_connect/xcm_accept returned, plus:
  * ready => the descriptor is open and O_NONBLOCK (C05, C08) and registered with xpoll;
  * bad => the stored errno is a real one and not EAGAIN (C06: it is what every later call reports);
  * closed => the kernel has reported end of stream (C06: "once the close has been seen") */
-#define BT_CONN_OK(s) ((s)->type == xcm_socket_type_conn && \
+#define BT_CONN_OK(s) (BT_CONN_OK_BUT_EOF(s) && (BT_IS(s, closed) ==> xv_rx_eof))
+#define BT_CONN_OK_BUT_EOF(s) ((s)->type == xcm_socket_type_conn && \
         BST(s) >= conn_state_resolving && BST(s) <= conn_state_bad && \
         (BT_IS(s, resolving) ==> (BT(s)->conn.query != NULL && BT(s)->conn.tconnect != NULL && BT(s)->fd == -1)) && \
         (BT_IS(s, connecting) ==> (BT(s)->conn.tconnect != NULL && BT(s)->fd == -1)) && \
         (BT_IS(s, ready) ==> (XB_FD_OK(BT(s)->fd) && BT_REG_OK(s))) && \
         (BT_IS(s, bad) ==> (BRSN(s) > 0 && BRSN(s) != EAGAIN)) && \
-        (BT_IS(s, closed) ==> xv_rx_eof) && \
         ((BT_IS(s, resolving) || BT_IS(s, connecting)) ==> BT(s)->conn.tcp_connect_timeout >= 0) && \
         BT_DEAD_IS_STATE(s) && B_OPTS_VALID(&BT(s)->conn.tcp_opts))
 /* counters (C17): < 2^61 on entry (a connection cannot move 2 EiB); btcp buffers nothing, so what was accepted has been
@@ -267,9 +279,14 @@ static inline void xb_ghost_havoc(void)
 #define BT_SAME(s, c) (BCN(s, c) == __CPROVER_old(BCN(s, c)))
 #define BT_GE(s, c) (BCN(s, c) >= __CPROVER_old(BCN(s, c)))
 #define BT_CNT_SAME(s) (BT_SAME(s, to_app_bytes) && BT_SAME(s, from_app_bytes) && BT_SAME(s, to_lower_bytes) && BT_SAME(s, from_lower_bytes))
-#define BT_GHOST_RANGE (xv_tx_off >= 0 && xv_tx_off < XV_OFF_MAX && xv_rx_off >= 0 && xv_rx_off < XV_OFF_MAX && xv_k >= 0 && xv_k < 2 * XV_OFF_MAX && \
-                        XB_ENV_RANGE && XP_RANGE && B_SO_RANGE && XB_CNT_OK(xb_eff_calls) && XB_CNT_OK(xb_tc_calls) && XB_CNT_OK(xb_tc_destroys) && \
-                        XB_CNT_OK(xb_tc_connects) && XB_CNT_OK(xb_q_destroys) && XB_CNT_OK(xb_q_processes))
+#define BT_GHOST_LIM(lim) (xv_tx_off >= 0 && xv_tx_off < XV_OFF_MAX && xv_rx_off >= 0 && xv_rx_off < XV_OFF_MAX && xv_k >= 0 && xv_k < 2 * XV_OFF_MAX && \
+                        XB_ENV_RANGE && XP_RANGE_LIM(lim) && B_SO_RANGE && XB_CNT_LIM(xb_eff_calls, lim) && XB_CNT_LIM(xb_tc_calls, lim) && XB_CNT_LIM(xb_tc_destroys, lim) && \
+                        XB_CNT_LIM(xb_tc_connects, lim) && XB_CNT_LIM(xb_q_destroys, lim) && XB_CNT_LIM(xb_q_processes, lim))
+#define BT_GHOST_RANGE BT_GHOST_LIM(XB_CALLS_MAX)            /* entry of a public operation */
+/* helpers are entered in mid-operation: try_establish -> try_finish_resolution (L1) -> begin_connect (L2) -> try_finish_connect (L3) */
+#define BT_GHOST_RANGE_L1 BT_GHOST_LIM(XB_CALLS_MAX + 8)
+#define BT_GHOST_RANGE_L2 BT_GHOST_LIM(XB_CALLS_MAX + 16)
+#define BT_GHOST_RANGE_L3 BT_GHOST_LIM(XB_CALLS_MAX + 32)
 #define BT_NO_IO (xb_send_calls == __CPROVER_old(xb_send_calls) && xb_recv_calls == __CPROVER_old(xb_recv_calls))
 #define BT_STATE_SAME(s) (BST(s) == __CPROVER_old(BST(s)) && BRSN(s) == __CPROVER_old(BRSN(s)) && BT(s)->fd == __CPROVER_old(BT(s)->fd) && \
                           BT(s)->fd_reg_id == __CPROVER_old(BT(s)->fd_reg_id))
@@ -288,7 +305,7 @@ static inline void xb_ghost_havoc(void)
 
 /* ---- try_finish_connect: poll the connect attempt */
 static void try_finish_connect(struct xcm_socket *s)
-__CPROVER_requires(__CPROVER_is_fresh(s, BT_SIZE) && BT_CONN_OK(s) && BT_IS(s, connecting) && BT_GHOST_RANGE)
+__CPROVER_requires(__CPROVER_is_fresh(s, BT_SIZE) && BT_CONN_OK(s) && BT_IS(s, connecting) && BT_GHOST_RANGE_L3)
 __CPROVER_assigns(BST(s), BRSN(s), BT(s)->fd, BT(s)->fd_reg_id, BT(s)->scope, BT(s)->conn.tconnect)
 __CPROVER_assigns(xv_errno, xv_lower_dead, XP_REG_ROW, B_SO_ASSIGNS, xb_eff_errno, xb_eff_calls, xb_tc_rc, xb_tc_errno, xb_tc_calls, xb_tc_destroys)
 /* errno is never changed (the outcome is reported by the public operation from the stored state) */
@@ -315,10 +332,15 @@ __CPROVER_ensures(xb_tc_rc == 0 ==> (XB_FD_OK(BT(s)->fd) && BT_REG_OK(s) && (xb_
 /* ---- begin_connect: resolve the local address (if any), start the attempt(s), poll once */
 #define BT_LADDR_OK(s) (BT(s)->laddr[XCM_ADDR_MAX] == 0)
 static void begin_connect(struct xcm_socket *s, const struct xcm_addr_ip *remote_ips, int num_remote_ips)
-__CPROVER_requires(__CPROVER_is_fresh(s, BT_SIZE) && BT_PROTO(s) && BT_CONN_OK(s) && BT_IS(s, connecting) && BT_GHOST_RANGE && BT_LADDR_OK(s))
+__CPROVER_requires(__CPROVER_is_fresh(s, BT_SIZE) && BT_PROTO(s) && BT_CONN_OK(s) && BT_IS(s, connecting) && BT_GHOST_RANGE_L2 && BT_LADDR_OK(s))
 __CPROVER_requires(num_remote_ips >= 1 && num_remote_ips <= XCM_DNS_MAX_RESULT_SIZE && __CPROVER_is_fresh(remote_ips, num_remote_ips * sizeof(struct xcm_addr_ip)))
 __CPROVER_assigns(BST(s), BRSN(s), BT(s)->fd, BT(s)->fd_reg_id, BT(s)->scope, BT(s)->conn.tconnect)
 __CPROVER_assigns(xv_errno, xv_lower_dead, XP_REG_ROW, B_SO_ASSIGNS, xb_eff_errno, xb_eff_calls, xb_tc_rc, xb_tc_errno, xb_tc_calls, xb_tc_destroys, xb_tc_connects)
+#ifdef XB_F20_TOLERATED
+/* job btcp.begin_connect@but_c05 ONLY: everything except C05 is decided with the sleep of xcm_dns_resolve_sync admitted.  The
+ * contract every other job uses (and btcp.begin_connect@c05 enforces) has no xv_blocked in its frame. */
+__CPROVER_assigns(xv_blocked)
+#endif
 __CPROVER_ensures(xv_errno == __CPROVER_old(xv_errno) && B_SO_RANGE && xb_tc_calls <= __CPROVER_old(xb_tc_calls) + 1 && xb_tc_connects <= __CPROVER_old(xb_tc_connects) + 1)
 __CPROVER_ensures((BT_IS(s, connecting) || BT_IS(s, ready) || BT_IS(s, bad)) && BT_CONN_OK(s))
 /* PO[C13,C06] begin_connect.failure_is_stored: an attempt that could not be started, or failed at once, leaves the socket bad with a real errno */
@@ -329,10 +351,11 @@ __CPROVER_ensures(BT_IS(s, ready) ==> B_OPTS_INFORCE(BT(s)->fd, &BT(s)->conn.tcp
 
 /* ---- try_finish_resolution: poll the resolver; on an answer start connecting */
 static void try_finish_resolution(struct xcm_socket *s)
-__CPROVER_requires(__CPROVER_is_fresh(s, BT_SIZE) && BT_PROTO(s) && BT_CONN_OK(s) && BT_IS(s, resolving) && BT_GHOST_RANGE && BT_LADDR_OK(s))
+__CPROVER_requires(__CPROVER_is_fresh(s, BT_SIZE) && BT_PROTO(s) && BT_CONN_OK(s) && BT_IS(s, resolving) && BT_GHOST_RANGE_L1 && BT_LADDR_OK(s))
 __CPROVER_assigns(BT_EST_FIELDS(s))
 __CPROVER_assigns(xv_errno, xv_lower_dead, XP_REG_ROW, B_SO_ASSIGNS, xb_eff_errno, xb_eff_calls, xb_tc_rc, xb_tc_errno, xb_tc_calls, xb_tc_destroys, xb_tc_connects, xb_q_rc, xb_q_errno, xb_q_destroys)
 __CPROVER_ensures(xv_errno == __CPROVER_old(xv_errno) && B_SO_RANGE && BT_CONN_OK(s))
+__CPROVER_ensures((xb_q_rc == -1 || xb_q_rc >= 1) && (BT_IS(s, resolving) || BT_IS(s, connecting) || BT_IS(s, ready) || BT_IS(s, bad)))
 /* PO[C13] try_finish_resolution.in_progress: EAGAIN => still resolving, the query lives on */
 __CPROVER_ensures((xb_q_rc == -1 && xb_q_errno == EAGAIN) ==> (BT_IS(s, resolving) && BT(s)->conn.query == __CPROVER_old(BT(s)->conn.query) && \
                    xb_q_destroys == __CPROVER_old(xb_q_destroys) && xb_tc_connects == __CPROVER_old(xb_tc_connects)))
@@ -379,7 +402,7 @@ static int btcp_send(struct xcm_socket *__restrict s, const void *__restrict buf
 __CPROVER_requires(BT_IO_REQUIRES(s))
 __CPROVER_requires(len <= XB_LEN_MAX && __CPROVER_is_fresh(buf, len == 0 ? 1 : len))
 __CPROVER_assigns(BT_IO_ASSIGNS(s), LOWER_SEND_ASSIGNS, XB_SEND_REC, BCN(s, from_app_bytes), BCN(s, to_lower_bytes))
-__CPROVER_ensures(BT_CONN_OK(s) && BT_CNT_RANGE_OUT(s) && BT_CNT_INV(s) && LOWER_DEAD_MONOTONE)
+__CPROVER_ensures(BT_CONN_OK_BUT_EOF(s) && BT_CNT_RANGE_OUT(s) && BT_CNT_INV(s) && LOWER_DEAD_MONOTONE)
 /* PO[C02,C06] btcp_send.lower_contract: what unit framing assumes of xcm_tp_socket_send (contracts/lower.h) */
 __CPROVER_ensures(len >= 1 ==> LOWER_SEND_ENSURES(__CPROVER_return_value, buf, len))
 /* PO[C02] btcp_send.rv_range: 1..len or -1 (0 only for len == 0) */
@@ -415,7 +438,13 @@ __CPROVER_ensures(__CPROVER_return_value > 0 \
 #ifdef XB_CAP0
 #define BT_CAP_REQUIRES(capacity) ((capacity) == 0)
 #else
-#define BT_CAP_REQUIRES(capacity) ((capacity) >= 1 && (capacity) <= XB_LEN_MAX)
+#ifndef XB_CAP_MAX
+#define XB_CAP_MAX XB_LEN_MAX
+#endif
+#ifndef XB_CAP_MIN
+#define XB_CAP_MIN 1
+#endif
+#define BT_CAP_REQUIRES(capacity) ((capacity) >= XB_CAP_MIN && (capacity) <= XB_CAP_MAX)
 #endif
 #define BT_RECV_ONE(s, buf, capacity) (xb_recv_calls == __CPROVER_old(xb_recv_calls) + 1 && xb_recv_fd == BT(s)->fd && xb_recv_buf == (buf) && \
                                        xb_recv_len == (capacity) && xb_recv_flags == 0)
@@ -451,7 +480,7 @@ __CPROVER_ensures((xb_recv_calls != __CPROVER_old(xb_recv_calls) && xb_recv_ret 
 __CPROVER_ensures(__CPROVER_return_value > 0 ==> BT_IS(s, ready))
 /* PO[C06,C02] btcp_receive.closed_only_after_eof: the connection is declared closed by the peer only when the kernel reported end of stream */
 __CPROVER_ensures(BT_IS(s, closed) ==> xv_rx_eof)
-__CPROVER_ensures(BT_CONN_OK(s))
+__CPROVER_ensures(BT_CONN_OK_BUT_EOF(s))
 /* PO[C17] btcp_receive.cnt: from_lower/to_app grow by exactly the delivered bytes; nothing is counted for EOF or a failure; the send side is untouched */
 __CPROVER_ensures(__CPROVER_return_value > 0 \
         ? (BCN(s, from_lower_bytes) == __CPROVER_old(BCN(s, from_lower_bytes)) + __CPROVER_return_value && BCN(s, to_app_bytes) == __CPROVER_old(BCN(s, to_app_bytes)) + __CPROVER_return_value) \
@@ -487,7 +516,7 @@ __CPROVER_ensures((BT_OLD_IS(s, bad) || BT_OLD_IS(s, closed)) ==> BT_STATE_SAME(
 
 /* ---- btcp_get_cnt (C17): the stored value */
 static int64_t btcp_get_cnt(struct xcm_socket *conn_s, enum xcm_tp_cnt cnt)
-__CPROVER_requires(__CPROVER_is_fresh(conn_s, BT_SIZE) && cnt < XCM_TP_NUM_BYTESTREAM_CNTS)
+__CPROVER_requires(__CPROVER_is_fresh(conn_s, BT_SIZE) && (int)cnt >= 0 && (int)cnt < XCM_TP_NUM_BYTESTREAM_CNTS)
 __CPROVER_assigns()
 /* PO[C17] btcp_get_cnt.stored_value */
 __CPROVER_ensures(__CPROVER_return_value == BT(conn_s)->conn.cnts[cnt])
@@ -512,7 +541,7 @@ __CPROVER_ensures((BT_IS(s, ready) && BT_MY_BELL(s)) ==> !xb_t_bell_ringing)
 /* PO[C04,C06] conn_update.terminal_rings_bell: closed/bad => the bell rings (the descriptor is readable whatever is awaited) */
 __CPROVER_ensures((BT_DEAD(s) && BT_MY_BELL(s)) ==> xb_t_bell_ringing)
 /* PO[C04,C16] conn_update.resolving_bell_iff_completed: while resolving the bell rings iff the resolver has finished (there may be no descriptor event for that) */
-__CPROVER_ensures((BT_IS(s, resolving) && BT_MY_BELL(s)) ==> xb_t_bell_ringing == xb_q_completed)
+__CPROVER_ensures((BT_IS(s, resolving) && BT_MY_BELL(s)) ==> !xb_t_bell_ringing == !xb_q_completed)
 /* PO[C16] conn_update.connecting_bell_silent: the connect attempt has its own registrations */
 __CPROVER_ensures((BT_IS(s, connecting) && BT_MY_BELL(s)) ==> !xb_t_bell_ringing)
 /* PO[C16] conn_update.nothing_else: no other registration and no other bell is touched; the descriptor's mask only in state ready */
@@ -540,7 +569,7 @@ __CPROVER_assigns(BT_UPD_ASSIGNS)
 /* PO[C04,C16] btcp_update.conn_ready_exact_mask */
 __CPROVER_ensures((s->type == xcm_socket_type_conn && BT_IS(s, ready) && BT_MY_REG(s)) ==> xb_t_reg_event == BT_MASK(s->condition))
 /* PO[C04,C06,C16] btcp_update.conn_bell: rings in closed/bad, rings iff completed while resolving, silent in connecting/ready */
-__CPROVER_ensures((s->type == xcm_socket_type_conn && BT_MY_BELL(s)) ==> xb_t_bell_ringing == (BT_DEAD(s) || (BT_IS(s, resolving) && xb_q_completed)))
+__CPROVER_ensures((s->type == xcm_socket_type_conn && BT_MY_BELL(s)) ==> !xb_t_bell_ringing == !(BT_DEAD(s) || (BT_IS(s, resolving) && xb_q_completed)))
 /* PO[C04,C16] btcp_update.server_acceptable_iff_epollin */
 __CPROVER_ensures((s->type == xcm_socket_type_server && BT_MY_REG(s)) ==> xb_t_reg_event == BT_SRV_MASK(s->condition))
 /* PO[C16] btcp_update.nothing_else */
